@@ -23,7 +23,7 @@ FORMS = {
     "s390x": [[12, 8, 11], [12, 8, 11, 11], [12, 8, 11, 11, 11], [12, 8, 11, 11, 11, 11]],
     "ppc64_linux_rpn30": [[16, 12, 12, 4]],
     "pfn32": [[12, 8, 8], [12, 10, 10]],
-    "pfn64": [[12, 8, 8], [13, 9, 9, 9]],
+    "pfn64": [[12, 8, 8], [13, 9, 9, 9], [20]],
 }
 SIGNED = ("x86_64", "riscv64")
 UNSIGNED = ("ia32", "ia32_pae", "s390x", "pfn32", "pfn64")
@@ -586,7 +586,8 @@ def compare(run, exe, cases, tags, model, impl, spec, crashes):
         run.note_case(line, " ; S " in il or line.startswith(("lkp", "mar")))
         if i < 4:
             run.sample({"case": line, "impl": il, "spec": sl})
-    todo = sorted(bad | set(verdicts) | set(crashes))[:5]
+    first = sorted(set(verdicts) | set(crashes))
+    todo = (first + sorted(bad - set(first)))[:5]
     for i in todo:
         line = cases[i]
 
@@ -597,10 +598,14 @@ def compare(run, exe, cases, tags, model, impl, spec, crashes):
         def fails(l):
             m, im, sp, cr = one(l)
             return bool(cr) or m != im or judge(im, sp) is not None
+
+        def contradicts(l):         # the stronger predicate: implementation vs spec / crash
+            m, im, sp, cr = one(l)
+            return bool(cr) or judge(im, sp) is not None
         if not fails(line):
             run.count("unreproducible-disagreement")
             continue
-        small = shrink_case(line, fails)
+        small = shrink_case(line, contradicts if contradicts(line) else fails)
         m, im, sp, cr = one(small)
         j = judge(im, sp)
         replay = {"engine": "walk", "case": small, "model": m, "implementation": im, "spec": sp,
